@@ -363,9 +363,14 @@ fn run_c11_threads(case: &C11Case) -> Outcome {
         if joins.iter().all(|j| j.is_finished()) && pending.is_empty() {
             break;
         }
-        if idle > 2_000_000 {
-            o.fail = Some(Failure { sig: "HARNESS/c11-threads-stuck".into(), msg: format!("no progress; {allocations} allocations, {} pending", pending.len()) });
-            break;
+        if idle > 100_000 {
+            // a loaded machine may starve the worker threads for a while: wait, do not judge
+            std::thread::sleep(std::time::Duration::from_millis(1));
+        }
+        if idle > 400_000 {
+            // five minutes without any progress: infrastructure (exit 2), never a violation
+            eprintln!("C11 multi-thread variant: no progress for minutes ({allocations} allocations, {} pending): inconclusive", pending.len());
+            std::process::exit(2);
         }
         std::thread::yield_now();
     }
